@@ -427,8 +427,52 @@ fn sweep(rng: &mut Rng, step: usize, out: &mut dyn Write) {
     }
 }
 
+/// one index file queried through `SqPackIndex` directly: every dat id, offsets at the ends of the
+/// 28-bit range, both kinds, 1..N entries
+fn gen_idx(rng: &mut Rng, out: &mut dyn Write) {
+    let kind = rng.range(1, 2);
+    let n = match rng.below(4) {
+        0 => 1,
+        1 => rng.range(2, 9),
+        _ => rng.range(2, 60),
+    } as usize;
+    let mut paths: Vec<String> = vec![];
+    let mut ents: Vec<String> = vec![];
+    for i in 0..n {
+        let p = gen_path(rng, &[1, 2, 3]);
+        let units = match rng.below(5) {
+            0 => 0,
+            1 => (1u64 << 28) - 1,
+            2 => rng.below(16),
+            _ => rng.below(1 << 28),
+        };
+        ents.push(format!("P{}/{}/{}/{}", hex(p.as_bytes()), rng.below(2), (i as u64 + rng.below(2)) % 8, units));
+        paths.push(p);
+    }
+    let mut qs: Vec<String> = vec![];
+    for _ in 0..(n + 3) {
+        let p = if rng.chance(3, 4) { rng.pick(&paths).clone() } else { gen_path(rng, &[1, 2, 3]) };
+        let m = rng.below(3);
+        qs.push(hex(mix_case(rng, &p, m).as_bytes()));
+    }
+    writeln!(
+        out,
+        "idx F,{},{},{},{},{} {}",
+        rng.below(5),
+        kind,
+        256 * rng.below(3),
+        16 * rng.below(3),
+        ents.join(","),
+        qs.join(",")
+    )
+    .unwrap();
+}
+
 pub fn generate(thorough: bool, seed: u64, out: &mut dyn Write) {
     let mut rng = Rng::new(seed, "C01");
+    for _ in 0..(if thorough { 2000 } else { 60 }) {
+        gen_idx(&mut rng, out);
+    }
     let mut sweep_buf: Vec<u8> = vec![];
     sweep(&mut rng, if thorough { 1 } else { 41 }, &mut sweep_buf);
     let sweep_lines: Vec<&[u8]> = sweep_buf.split(|b| *b == b'\n').filter(|l| !l.is_empty()).collect();
@@ -489,8 +533,39 @@ fn answer(game: &mut GameData, q: &str) -> String {
     }
 }
 
+fn run_idx(file: &str, qs: &str) -> String {
+    let Some(content) = unhex(file) else { return "bad-case".into() };
+    let tmp = TempDir::new("c01i");
+    let path = tmp.path().join("000000.win32.index");
+    std::fs::write(&path, content).unwrap();
+    let p = path.to_str().unwrap().to_string();
+    let Ok(Some(ix)) = std::panic::catch_unwind(move || physis::sqpack::SqPackIndex::from_existing(&p)) else {
+        return qs.split(',').map(|_| "noindex").collect::<Vec<_>>().join(",");
+    };
+    let mut out = vec![];
+    for q in qs.split(',') {
+        let Some(p) = unhex(q).and_then(|p| String::from_utf8(p).ok()) else { return "bad-case".into() };
+        let ixr = AssertUnwindSafe(&ix);
+        out.push(guarded(move || {
+            let found = ixr.find_entry(&p);
+            // `exists` must agree with `find_entry`
+            if ixr.exists(&p) != found.is_some() {
+                return "exists-disagrees".into();
+            }
+            match found {
+                Some(e) => format!("d{}o{}", e.data_file_id, e.offset),
+                None => "none".into(),
+            }
+        }));
+    }
+    out.join(",")
+}
+
 pub fn run(case: &str, input: &str) -> String {
     let f: Vec<&str> = input.split(' ').collect();
+    if f.len() == 2 {
+        return run_idx(f[0], f[1]);
+    }
     if f.len() != 5 {
         return "bad-case".into();
     }
